@@ -377,6 +377,9 @@ func (e *Extractor) IsCharacterLevel() (bool, error) {
 	if err := e.ensureReader(); err != nil {
 		return false, err
 	}
+	if e.reader == nil {
+		return false, fmt.Errorf("operation is only supported for PDF documents (format: %s)", e.format)
+	}
 
 	page, err := e.reader.GetPage(0)
 	if err != nil {
@@ -407,6 +410,9 @@ func (e *Extractor) IsMultiColumn() (bool, error) {
 
 	if err := e.ensureReader(); err != nil {
 		return false, err
+	}
+	if e.reader == nil {
+		return false, fmt.Errorf("operation is only supported for PDF documents (format: %s)", e.format)
 	}
 
 	page, err := e.reader.GetPage(0)
@@ -1841,6 +1847,10 @@ func (e *Extractor) validateFormat() error {
 // resolvePages converts 1-indexed page numbers to 0-indexed and validates them.
 // If no pages specified, returns all pages.
 func (e *Extractor) resolvePages() ([]int, error) {
+	if e.reader == nil {
+		return nil, fmt.Errorf("operation is only supported for PDF documents (format: %s)", e.format)
+	}
+
 	pageCount, err := e.reader.PageCount()
 	if err != nil {
 		return nil, fmt.Errorf("failed to get page count: %w", err)
